@@ -717,7 +717,14 @@ fn sequential(s: &mut Sink) {
         for width in [4u8, 8] {
             for align in 0..8usize {
                 for preg in [1u8, 6, 7] {
+                  // `ps`: the packet handed to the VM starts `ps` bytes into the buffer, so the region's start
+                  // is not aligned while the word's address is what `align` says (interpreter: alignment is a
+                  // property of the address, not of the offset inside the region)
+                  for ps in (if eng == Eng::Interp && preg == 6 { vec![0usize, 1, 2, 4, 5] } else { vec![0usize] }) {
                     for a in V64 {
+                        if ps != 0 && !matches!(a, 1 | 0xffff_ffff | 0x0123456789abcdef) {
+                            continue;
+                        }
                         let buf = Buf::new(64, 0);
                         let mut initb = vec![0x5au8; 64];
                         let woff = 24 + align;
@@ -729,13 +736,13 @@ fn sequential(s: &mut Sink) {
                             continue; // misaligned atomics under the compilers: the property is silent
                         }
                         let vreg = if preg == 2 { 3 } else { 2 };
-                        let mut prog = vec![isa::mov64r(preg, 1), isa::add64i(preg, woff as i32)];
+                        let mut prog = vec![isa::mov64r(preg, 1), isa::add64i(preg, (woff - ps) as i32)];
                         prog.extend(isa::lddw(vreg, a));
                         prog.push(I::new(if width == 4 { 0xc3 } else { 0xdb }, preg, vreg, 0, 0));
                         prog.push(isa::mov64i(0, 0));
                         prog.push(isa::EXIT);
                         let bytes = isa::enc(&prog);
-                        let rp = json!({"kind":"xadd-seq","eng":eng.name(),"width":width,"align":align,"preg":preg,"addend":format!("{a:#x}")});
+                        let rp = json!({"kind":"xadd-seq","eng":eng.name(),"width":width,"align":align,"preg":preg,"addend":format!("{a:#x}"),"packet_start":ps});
                         let class = format!("xadd{}@align{}", if width == 4 { "w" } else { "dw" }, align % width as usize);
                         s.count("evaluations", 1);
                         s.count("states", 1);
@@ -756,7 +763,7 @@ fn sequential(s: &mut Sink) {
                         let out = {
                             // isolate every run: compiled code can fault, and an interpreter that
                             // wrongly admits a misaligned atomic aborts in builds with debug assertions
-                            let end = in_child(20, || match vmx.exec(eng, buf.raw(), crate::vm::empty_raw()) {
+                            let end = in_child(20, || match vmx.exec(eng, (unsafe { buf.ptr.add(ps) }, 64 - ps), crate::vm::empty_raw()) {
                                 Ok(v) => format!("O{v}").into_bytes(),
                                 Err(e) => format!("E{e}").into_bytes(),
                             });
@@ -796,6 +803,7 @@ fn sequential(s: &mut Sink) {
                             s.violation(&format!("{}/{class}/touched-other-bytes", eng.name()), "bytes outside the buffer changed".into(), rp.clone());
                         }
                     }
+                  }
                 }
             }
         }
@@ -873,7 +881,9 @@ fn sequential(s: &mut Sink) {
                     s.count("transitions", 1);
                     s.count("traces_validated_against_impl", 1);
                     s.count("distinct_nontrivial", 1);
-                    let (st, en) = (buf.addr(), buf.addr() + 64);
+                    // the registered range starts 0, 1 or 5 bytes into the buffer (preg selects): an odd start
+                    let rs = match preg { 1 => 0u64, 6 => 1, _ => 5 };
+                    let (st, en) = (buf.addr() + rs, buf.addr() + 64);
                     let end = in_child(20, || {
                         let mut vmx = match AnyVm::new(VmKind::NoData, Some(&bytes)) { Ok(v) => v, Err(e) => return format!("L{e}").into_bytes() };
                         vmx.register_allowed_memory(st..en);
